@@ -25,7 +25,7 @@ pub struct Tables {
 
 impl Tables {
     pub fn new(map: usize) -> Tables {
-        let keys: [&str; 3] = match map { 0 => ["Package", "Depends", "X-New"], 1 => ["a", "~b#c", "Zz-9"], _ => ["A!", "b.c+d", "_"] };
+        let keys: [&str; 3] = match map { 0 => ["Package", "Depends", "X-New"], 1 => ["a", "~b#c", "Zz-9"], _ => ["Pkg", "pkg", "PKG"] };   // (names that differ by case only: names are compared exactly)
         let vals: [&str; 6] = match map {
             0 => ["one", "two,", "three", "four", "five,", "six"],
             1 => ["#hash first", "é日 :", ":colon x", "x: y # z", "-dash  ", "tab\there"],
@@ -348,7 +348,12 @@ pub fn run_edge(case: &Value, seed: u64) -> Outcome {
             && events.last().map(|e| e["ret"] == case["op"]["ret"]).unwrap_or(true);
         if !same {
             // judged by the P-layer in TLC (trace validation), never here
-            o.drift.push(json!({"kind": format!("edit:{}", case["op"]["op"].as_str().unwrap_or("")), "conc": obs["text"], "detail": format!("predicted {}", t_pred), "events": events}));
+            // which histories TLC judges is capped per kind: those that are inconsistent in themselves (the printed text
+            // does not re-read to what the object reports, a handle does not see the edit) are kinds of their own, so
+            // that they are never crowded out by histories that merely differ from the I-layer's prediction
+            let nonempty: Vec<Value> = obs["api"].as_array().map(|a| a.iter().filter(|p| p.as_array().map(|x| !x.is_empty()).unwrap_or(false)).cloned().collect()).unwrap_or_default();
+            let reason = if obs["rr"] != json!(true) || obs["rapi"].as_array().map(|a| a != &nonempty).unwrap_or(true) { "reread" } else if obs["hs"] != json!(true) { "handles" } else { "model" };
+            o.drift.push(json!({"kind": format!("edit:{}:{}", case["op"]["op"].as_str().unwrap_or(""), reason), "conc": obs["text"], "detail": format!("predicted {}", t_pred), "events": events}));
         }
         if o.sample.is_null() && hist.len() >= 2 {
             o.sample = json!({"origin": origin, "base_text": render(&t, &case["s0"]["lines"], case["s0"]["term"].as_bool().unwrap_or(true)),
